@@ -15,7 +15,7 @@ from mc.checks import rules_common as R
 
 PROPERTY = "C09"
 LEVEL = "exploration"
-RULE = ("cases = every ordered sequence of 1..K distinct rules over an 18-rule alphabet plus every sequence of K+1 rules over its 12 core rules (K=3 quick, 4 thorough) "
+RULE = ("cases = every ordered sequence of 1..K distinct rules over a 19-rule alphabet (incl. one rule with a 2100-character pattern) plus every sequence of K+1 rules over its 12 core rules (K=3 quick, 4 thorough) "
         "(priority unset/0/10/90; 1 or 2 pattern functions; constraint kinds none/amount/amount+month/source; short/long patterns; "
         "subcategory set/unset; one tag-only rule; exact-tie pairs (contains vs regex with equal key, amount vs source constraint)); "
         "each on 30 transactions via engine.match and normalize_merchant in most_specific mode; plus a legacy-CSV family in most_specific mode (library and `tally up --migrate`). "
@@ -50,6 +50,9 @@ RULES = [
     # the other quote character inside a pattern (its whole text counts towards the pattern length)
     {"name": "r16", "match": 'contains("UBER\'S")', "category": "O", "subcategory": "o"},
     {"name": "r17", "match": "contains('UBER\"S E')", "category": "P", "subcategory": "p"},
+    # a very long pattern text (one component of the rank far larger than the others): still only the LAST component, so every rule
+    # with a constraint kind or a second pattern function outranks it
+    {"name": "r18", "match": 'anyof("UBER", "' + "X" * 2100 + '")', "category": "Q", "subcategory": "q"},
 ]
 PATTERN_FUNCS = {"contains", "regex", "normalized", "startswith", "fuzzy", "anyof"}
 KINDS = {"amount", "date", "month", "year", "day", "weekday", "source"}
